@@ -110,7 +110,8 @@ void harness(void) {
   } else {
     ASSERT(r >= 0, "the reference entry is stored");
     if (r >= 0) {
-      ASSERT(same(text, (int)r, e[ref].text, e[ref].tl), "stored text equals the reference classifier's");
+      struct ent R = e[ref]; /* copy: CBMC 6.11 mis-reads through a pointer to a member of e[symbolic] (see NOTES.md) */
+      ASSERT(same(text, (int)r, R.text, R.tl), "stored text equals the reference classifier's");
       if (QKIND == 2) ASSERT(info[2] == (uint64_t)nsame, "the name has as many values as the reference");
       ASSERT(info[3] == 0, "a freshly parsed argument is not marked used");
     }
